@@ -25,6 +25,10 @@ home = os.getcwd()
 for job in jobs:
     buf = io.StringIO()
     os.chdir(job.get("cwd") or home)
+    if job.get("nofile"):          # soft limit of open files from this job on
+        import resource
+        soft, hard = resource.getrlimit(resource.RLIMIT_NOFILE)
+        resource.setrlimit(resource.RLIMIT_NOFILE, (int(job["nofile"]), hard))
     if "main" in job:
         # the command line entry point with the mapping pipeline replaced by a recorder: which species, in which
         # order (= alignment order = share of the random stream), reach the pipeline under this hash seed
